@@ -108,6 +108,11 @@ pub struct CaseOut {
     pub failures: Vec<Failure>,
     /// signatures of failures that belong to *other* properties (case is cut short there)
     pub foreign: Vec<String>,
+    /// process-level parameter the case ran under that is not on the tape (e.g. the replication
+    /// factor of the one cluster node a worker process can host); stored in replay files and
+    /// handed back through `Env::hint`
+    #[serde(default)]
+    pub hint: Option<u64>,
 }
 
 impl CaseOut {
@@ -145,6 +150,8 @@ pub struct Env {
     pub strict: bool,
     pub known: Known,
     pub shard: u64,
+    /// see `CaseOut::hint`; `None` in generated shards (derive it from `seed`/`shard`)
+    pub hint: Option<u64>,
 }
 
 impl Env {
@@ -372,6 +379,8 @@ pub struct ViolationRec {
     pub tape: Option<Vec<Vec<u32>>>,
     pub params: Option<Value>,
     pub sample: Value,
+    #[serde(default)]
+    pub hint: Option<u64>,
 }
 
 #[derive(Clone, Debug, Default, Serialize, Deserialize)]
@@ -567,6 +576,7 @@ fn run_pbt_shard(check: &dyn Check, env: &Env, cases: u64, plan: &Plan, inflight
                 tape: Some(minimal),
                 params: None,
                 sample: out.sample,
+                hint: out.hint,
             });
         }
         Err(TestError::Abort(reason)) => {
@@ -576,6 +586,7 @@ fn run_pbt_shard(check: &dyn Check, env: &Env, cases: u64, plan: &Plan, inflight
                 tape: None,
                 params: None,
                 sample: Value::Null,
+                hint: None,
             });
         }
     }
@@ -583,37 +594,46 @@ fn run_pbt_shard(check: &dyn Check, env: &Env, cases: u64, plan: &Plan, inflight
     st.res
 }
 
-fn run_corpus_shard(check: &dyn Check, env: &Env) -> ShardResult {
-    let mut res = ShardResult::default();
-    let dir = Path::new(VERIF_ROOT).join("corpus").join(check.id());
+fn corpus_files(id: &str) -> Vec<PathBuf> {
+    let dir = Path::new(VERIF_ROOT).join("corpus").join(id);
     let mut files: Vec<PathBuf> = match std::fs::read_dir(&dir) {
         Ok(rd) => rd.filter_map(|e| e.ok().map(|e| e.path())).filter(|p| p.extension().map(|e| e == "json").unwrap_or(false)).collect(),
         Err(_) => Vec::new(),
     };
     files.sort();
-    for f in files {
-        let Ok(s) = std::fs::read_to_string(&f) else { continue };
-        let Ok(v) = serde_json::from_str::<Value>(&s) else { continue };
-        let (failures, sample, tape, params) = replay_value(check, &v, env);
-        res.evaluations += 1;
-        *res.counters.entry("corpus_inputs".into()).or_insert(0) += 1;
-        for fl in failures {
-            if env.known.has(&fl.signature) {
-                let e = res.known_hits.entry(fl.signature.clone()).or_default();
-                if e.count == 0 {
-                    e.tape = tape.clone().unwrap_or_default();
-                    e.message = fl.message.clone();
-                }
-                e.count += 1;
-            } else {
-                res.violations.push(ViolationRec {
-                    signature: fl.signature,
-                    message: format!("[corpus {}] {}", f.display(), fl.message),
-                    tape: tape.clone(),
-                    params: params.clone(),
-                    sample: sample.clone(),
-                });
+    files
+}
+
+/// Regression inputs run in strict mode, one worker process per file (a file may carry a
+/// process-level hint such as the replication factor of the node).
+fn run_corpus_file(check: &dyn Check, tier: Tier, seed: u64, index: usize) -> ShardResult {
+    let mut res = ShardResult::default();
+    let files = corpus_files(check.id());
+    let Some(f) = files.get(index) else { return res };
+    let Ok(s) = std::fs::read_to_string(f) else { return res };
+    let Ok(v) = serde_json::from_str::<Value>(&s) else { return res };
+    let hint = v.get("hint").and_then(|h| h.as_u64());
+    let env = Env { tier, seed, strict: true, known: Known::load(), shard: index as u64, hint };
+    let (failures, sample, tape, params) = replay_value(check, &v, &env);
+    res.evaluations += 1;
+    *res.counters.entry("corpus_inputs".into()).or_insert(0) += 1;
+    for fl in failures {
+        if env.known.has(&fl.signature) {
+            let e = res.known_hits.entry(fl.signature.clone()).or_default();
+            if e.count == 0 {
+                e.tape = tape.clone().unwrap_or_default();
+                e.message = fl.message.clone();
             }
+            e.count += 1;
+        } else {
+            res.violations.push(ViolationRec {
+                signature: fl.signature,
+                message: format!("[corpus {}] {}", f.display(), fl.message),
+                tape: tape.clone(),
+                params: params.clone(),
+                sample: sample.clone(),
+                hint,
+            });
         }
     }
     res
@@ -675,6 +695,7 @@ fn run_exhaustive_shard(check: &dyn Check, env: &Env, shard: u64, total: u64) ->
                         tape: None,
                         params: Some(params.clone()),
                         sample: params,
+                        hint: None,
                     });
                 }
             }
@@ -687,6 +708,7 @@ fn run_exhaustive_shard(check: &dyn Check, env: &Env, shard: u64, total: u64) ->
                 tape: None,
                 params: None,
                 sample: Value::Null,
+                hint: None,
             });
         }
     }
@@ -705,7 +727,7 @@ fn seed_from_env() -> u64 {
 }
 
 enum ShardKind {
-    Corpus,
+    Corpus { index: u64 },
     Pbt { shard: u64, cases: u64 },
     Exhaustive { shard: u64, total: u64 },
 }
@@ -772,16 +794,13 @@ fn worker_main(checks: &[&dyn Check], a: &[String]) -> i32 {
     let check = *checks.iter().find(|c| c.id() == id).expect("check id");
     let plan = check.plan(tier);
     let res = match kind {
-        "corpus" => {
-            let env = Env { tier, seed, strict: true, known: Known::load(), shard };
-            run_corpus_shard(check, &env)
-        }
+        "corpus" => run_corpus_file(check, tier, seed, shard as usize),
         "pbt" => {
-            let env = Env { tier, seed, strict: false, known: Known::load(), shard };
+            let env = Env { tier, seed, strict: false, known: Known::load(), shard, hint: None };
             run_pbt_shard(check, &env, n, &plan, &inflight)
         }
         "exh" => {
-            let env = Env { tier, seed, strict: false, known: Known::load(), shard };
+            let env = Env { tier, seed, strict: false, known: Known::load(), shard, hint: None };
             run_exhaustive_shard(check, &env, shard, n)
         }
         _ => panic!("bad kind"),
@@ -818,6 +837,9 @@ fn write_replay(id: &str, seed: u64, v: &ViolationRec) -> PathBuf {
     if let Some(p) = &v.params {
         obj["params"] = p.clone();
     }
+    if let Some(h) = v.hint {
+        obj["hint"] = json!(h);
+    }
     let _ = std::fs::write(&path, serde_json::to_string_pretty(&obj).unwrap());
     path
 }
@@ -840,7 +862,8 @@ fn replay_main(checks: &[&dyn Check], a: &[String]) -> i32 {
         eprintln!("replay file is for property {id}, not served by this binary");
         return 3;
     };
-    let env = Env { tier: Tier::Quick, seed: seed_from_env(), strict: true, known: Known::load(), shard: 0 };
+    let hint = v.get("hint").and_then(|h| h.as_u64());
+    let env = Env { tier: Tier::Quick, seed: seed_from_env(), strict: true, known: Known::load(), shard: 0, hint };
     let (fails, sample, _, _) = replay_value(*check, &v, &env);
     println!("case: {}", serde_json::to_string(&sample).unwrap_or_default());
     if fails.is_empty() {
@@ -863,11 +886,11 @@ fn replay_main(checks: &[&dyn Check], a: &[String]) -> i32 {
 fn spawn_worker(id: &str, tier: Tier, seed: u64, kind: &ShardKind) -> std::io::Result<Running> {
     let exe = std::env::current_exe()?;
     let (k, shard, n) = match kind {
-        ShardKind::Corpus => ("corpus", 0, 0),
+        ShardKind::Corpus { index } => ("corpus", *index, 0),
         ShardKind::Pbt { shard, cases } => ("pbt", *shard, *cases),
         ShardKind::Exhaustive { shard, total } => ("exh", *shard, *total),
     };
-    let inflight = inflight_path(id, if k == "corpus" { 1_000_000 } else if k == "exh" { 2_000_000 + shard } else { shard });
+    let inflight = inflight_path(id, if k == "corpus" { 1_000_000 + shard } else if k == "exh" { 2_000_000 + shard } else { shard });
     let stdout_path = inflight.with_extension("out");
     let stderr_path = inflight.with_extension("err");
     let child = Command::new(exe)
@@ -909,7 +932,7 @@ fn orchestrate(check: &dyn Check, tier: Tier) -> i32 {
     }
     let known = Known::load();
 
-    let mut queue: Vec<ShardKind> = vec![ShardKind::Corpus];
+    let mut queue: Vec<ShardKind> = (0..corpus_files(id).len() as u64).map(|index| ShardKind::Corpus { index }).collect();
     let nshards = if plan.cases == 0 { 0 } else { plan.cases.div_ceil(plan.shard_cases.max(1)) };
     for s in 0..nshards {
         let cases = if s == nshards - 1 { plan.cases - s * plan.shard_cases } else { plan.shard_cases };
@@ -967,7 +990,7 @@ fn orchestrate(check: &dyn Check, tier: Tier) -> i32 {
                         let tape: Option<Vec<Vec<u32>>> = std::fs::read(&r.inflight).ok().and_then(|b| serde_json::from_slice(&b).ok());
                         let mut note = String::new();
                         if let Some(t) = tape {
-                            let v = ViolationRec { signature: format!("{id}/watchdog"), message: "case in flight when the watchdog stopped the worker (inconclusive, not a violation)".into(), tape: Some(t), params: None, sample: Value::Null };
+                            let v = ViolationRec { signature: format!("{id}/watchdog"), message: "case in flight when the watchdog stopped the worker (inconclusive, not a violation)".into(), tape: Some(t), params: None, sample: Value::Null, hint: None };
                             let p = write_replay(&format!("{id}-inflight"), seed, &v);
                             note = format!("; case in flight saved to {}", p.display());
                         }
@@ -985,7 +1008,7 @@ fn orchestrate(check: &dyn Check, tier: Tier) -> i32 {
                                 e.message = why;
                                 e.tape = tape.unwrap();
                             } else {
-                                merged.violations.push(ViolationRec { signature: sig, message: why, tape, params: None, sample: Value::Null });
+                                merged.violations.push(ViolationRec { signature: sig, message: why, tape, params: None, sample: Value::Null, hint: None });
                             }
                         } else {
                             inconclusive.push(why);
